@@ -60,6 +60,7 @@ class C11a(Obligation):
     title = 'Signature.index is a parameter Python could bind the argument under the cursor to'
     pattern = 'P1 kernel vs reference model (admissible set)'
     sym_containers = True
+    max_paths = 80000
     assumptions = (
         'parameter lists are valid Python parameter lists with distinct non-empty names',
         'the call prefix can still be completed to a call Python accepts (positionals before '
@@ -74,7 +75,7 @@ class C11a(Obligation):
         if tier == 'quick':
             shapes = [(P, A) for P in range(0, 4) for A in (1, 2)] + [(1, 3), (2, 3)]
         else:
-            shapes = [(P, A) for P in range(0, 5) for A in (1, 2, 3)] + [(1, 4), (2, 4), (3, 4)]
+            shapes = [(P, A) for P in range(0, 5) for A in (1, 2)] + [(1, 3), (2, 3), (3, 3)]
         for P, A in shapes:
             out.append(dict(P=P, A=A, stars=False))
         for P in range(1, 3 if tier == 'quick' else 4):
